@@ -52,6 +52,7 @@ Expected(t, g) ==
       [] g.getter = "get_column_cells" -> GetColumnCells(t, g.x)
       [] g.getter = "row_get_cell" -> <<CellH(t, g.x, g.y)>>
       [] g.getter \in {"row_traverse", "row_cells"} -> RowCells(t, g.y, 0, Big)
+      [] g.getter = "setup" -> <<>>
       [] g.getter = "row_get_cells" -> RowCells(t, g.y, g.x, g.z)
 
 Expanding == {"get_cells", "cells", "get_rows", "traverse", "rows", "get_columns",
